@@ -143,8 +143,8 @@ CHECKS = {
     },
     "C04": {
         "extra_props": ["Props/C04_retry.v", "Props/C04_poll.v", "Props/C04_throttle.v", "Props/C04_timeout.v", "Props/C04_src.v", "Props/C04_layers.v"],
-        "modules": ["p_c04", "p_c04r", "p_c04x", "p_c04t", "p_c04p", "p_c04o", "p_c04c", "p_c04m", "p_c04b"],
-        "rule": "p_c04x: the Retry lockstep family of C06 (cancel() racing with the submit thread) with the deadlock / pending verdicts; p_c04t / p_c04p / p_c04o / p_c04c / p_c04m / p_c04b: the lockstep families of C07, C08, C09, C10, C13, C14 (every component machine) with the deadlock / dead-thread verdicts of their monitors; p_c04r: the Retry lockstep family (C05) with the pending / late / deadlock verdicts (a result() or shutdown(wait=True) that would wait for ever on the submit thread); p_c04: seeded scenarios on real stacks: depth 1-4 over the seven layer kinds, base sync or the real ThreadPoolExecutor, client programs "
+        "modules": ["p_c04", "p_c04s", "p_c04r", "p_c04x", "p_c04t", "p_c04p", "p_c04o", "p_c04c", "p_c04m", "p_c04b"],
+        "rule": "p_c04s: the shutdown scenarios of C11 with ONE shutdown caller (hang verdict only); p_c04x: the Retry lockstep family of C06 (cancel() racing with the submit thread) with the deadlock / pending verdicts; p_c04t / p_c04p / p_c04o / p_c04c / p_c04m / p_c04b: the lockstep families of C07, C08, C09, C10, C13, C14 (every component machine) with the deadlock / dead-thread verdicts of their monitors; p_c04r: the Retry lockstep family (C05) with the pending / late / deadlock verdicts (a result() or shutdown(wait=True) that would wait for ever on the submit thread); p_c04: seeded scenarios on real stacks: depth 1-4 over the seven layer kinds, base sync or the real ThreadPoolExecutor, client programs "
                 "of 1-3 threads x 1-4 operations {submit, submit whose callable submits again, cancel, add_done_callback, add_done_callback "
                 "whose callback submits again, result}, map functions that submit again, optional shutdown thread; x {random, sticky, PCT} "
                 "schedules; deadlock = every unfinished thread blocked and no timer (or only periodic timers firing for ever); each deadlock is "
@@ -183,8 +183,8 @@ CHECKS = {
     "C12": {
         "extra_props": ["Props/C12_src.v", "Props/C12_keep_throttle.v", "Props/C12_keep_timeout.v", "Props/C12_keep_poll.v", "Props/C12_keep_cos.v",
                         "Props/C12_keep_mapfut.v", "Props/C12_keep_comb.v"],
-        "modules": ["p_c12", "p_c12w", "p_c12p"],
-        "rule": "p_c12p: the Poll lockstep family of C08 with the verdicts about descriptors left behind by finished futures (concurrent completions / cancels against registration and deregistration); p_c12w: the drop scenarios of p_c12 with the four worker loops in lockstep with Model/Refs.v: every executor_ref() of the loop with its result, whether a library frame "
+        "modules": ["p_c12", "p_c12w", "p_c12p", "p_c12d"],
+        "rule": "p_c12d: the client programs of C04 (nested submissions, timeouts that fire on futures whose callbacks resubmit) with the deadlock verdicts (a worker blocked for ever never exits); p_c12p: the Poll lockstep family of C08 with the verdicts about descriptors left behind by finished futures (concurrent completions / cancels against registration and deregistration); p_c12w: the drop scenarios of p_c12 with the four worker loops in lockstep with Model/Refs.v: every executor_ref() of the loop with its result, whether a library frame "
                 "of the loop still holds the executor when it goes to wait, every set / wait / wake-up / time-out / clear of the loop's event and the finalisation of the executor "
                 "(the weak reference's callback) are logged from outside and replayed on the extracted machine; p_c12: seeded scenarios on real retry / poll / throttle / timeout executors (over sync or a manual delegate that forgets finished "
                 "work): 1-3 submissions with weakly referenced callable, argument, result and future; fates {completed, cancelled while "
